@@ -14,7 +14,7 @@ import time
 
 from . import memwire
 
-BACKSTOP = 8.0
+BACKSTOP = 5.0
 
 
 def sock_fds():
@@ -452,14 +452,28 @@ async def run_scenario(sc, workdir):
 # in-flight races: the connection is lost while a listener / destination connection is being set up
 
 async def race_scenario(sc):
-    """sc = {'race': 'listen_client'|'listen_server'|'listen_server_unix'|'dest', 'turns': n}"""
+    """sc = {'race': 'listen_client'|'listen_server'|'listen_server_unix'|'dest'|'dest_gated', 'turns': n}"""
     import asyncssh
     loop = asyncio.get_running_loop()
     bad = []
     base0 = sock_fds()
     dests = []
     kind = sc['race']
-    tun, wire, acc, conn = await memwire.connected_pair(make_server_class(asyncssh))
+    gate = loop.create_future()
+    srv_class = make_server_class(asyncssh)
+    if kind == 'dest_gated':
+        # the application returns an awaitable session: it completes (with a real connection to the
+        # destination made by the public forward_connection()) only after the SSH connection is gone
+        class srv_class(srv_class):
+            def connection_made(self, c):
+                self._c = c
+
+            def connection_requested(self, dh, dp, oh, op):
+                async def later():
+                    await gate
+                    return await self._c.forward_connection(dh, dp)
+                return later()
+    tun, wire, acc, conn = await memwire.connected_pair(srv_class)
     turns = sc.get('turns', 1)
     port = None
     if kind == 'listen_client':
@@ -503,6 +517,12 @@ async def race_scenario(sc):
         wire.deliver('c', wire.pending('c'))
         await memwire.settle(turns)
         wire.cut_link()
+        if kind == 'dest_gated':
+            await until(lambda: getattr(wire.sconn, 'is_closed', lambda: True)())
+            await memwire.settle(turns)
+            gate.set_result(None)
+            if not await until(lambda: bool(dests)):
+                bad.append('gated destination connection was never made')
         try:
             r, w = await asyncio.wait_for(t, BACKSTOP)
             w.close()
